@@ -44,15 +44,57 @@ func (c *Ctx) renamedField(n *types.Named, name string) *types.Var {
 		if _, existed := frozen[f.Name()]; existed {
 			continue
 		}
-		if types.TypeString(f.Type(), relQualifier) == want {
+		if normTypeString(f.Type()) == want {
 			cands = append(cands, f)
 		}
 	}
-	if len(cands) != 1 {
+	if len(cands) == 1 {
+		c.noteRenamed("field " + structKey(n) + "." + name + " -> " + cands[0].Name())
+		return cands[0]
+	}
+	if len(cands) > 1 {
 		return nil
 	}
-	c.noteRenamed("field " + structKey(n) + "." + name + " -> " + cands[0].Name())
-	return cands[0]
+	// ... or the field has moved, with others that travel together, into a small struct of the same package that a
+	// new field of this struct holds
+	var nested []*types.Var
+	via := ""
+	for i := 0; i < st.NumFields(); i++ {
+		f := st.Field(i)
+		if _, existed := frozen[f.Name()]; existed {
+			continue
+		}
+		inner := namedOf(f.Type())
+		if inner == nil || inner.Obj().Pkg() != n.Obj().Pkg() {
+			continue
+		}
+		if _, known := frozenFields[structKey(inner)]; known {
+			continue // a type that already existed: not a grouping introduced by the refactoring
+		}
+		ist, _ := inner.Underlying().(*types.Struct)
+		if ist == nil {
+			continue
+		}
+		for j := 0; j < ist.NumFields(); j++ {
+			if normTypeString(ist.Field(j).Type()) == want {
+				nested = append(nested, ist.Field(j))
+				via = f.Name()
+			}
+		}
+	}
+	if len(nested) != 1 {
+		return nil
+	}
+	c.noteRenamed("field " + structKey(n) + "." + name + " -> " + via + "." + nested[0].Name())
+	return nested[0]
+}
+
+// normTypeString: the type, with parameter and result names of a function type dropped (they are not part of it).
+func normTypeString(t types.Type) string {
+	if sig, ok := t.(*types.Signature); ok {
+		return types.TypeString(types.NewSignatureType(nil, nil, nil, anonTuple(sig.Params()), anonTuple(sig.Results()), sig.Variadic()), relQualifier)
+	}
+	return types.TypeString(t, relQualifier)
 }
 
 func (c *Ctx) noteRenamed(s string) {
@@ -190,7 +232,7 @@ func debugAnchors(c *Ctx) {
 			}
 			fmt.Printf("\t%q: {", structKey(n))
 			for i := 0; i < st.NumFields(); i++ {
-				fmt.Printf("%q: %q, ", st.Field(i).Name(), types.TypeString(st.Field(i).Type(), relQualifier))
+				fmt.Printf("%q: %q, ", st.Field(i).Name(), normTypeString(st.Field(i).Type()))
 			}
 			fmt.Println("},")
 		}
